@@ -118,7 +118,7 @@ class Program:
 # generator
 
 
-DEFAULT_AVOID = frozenset(["fptr-typedef-ret", "cast-paren-mult", "typedef-cast-tilde"])
+DEFAULT_AVOID = frozenset(["fptr-typedef-ret", "cast-paren-mult", "typedef-cast-tilde", "global-fptr-no-init"])
 
 
 class Env:
@@ -1006,8 +1006,28 @@ class Gen:
         for _ in range(n):
             name = self.fresh("glob", prefix="g_", lo=2, hi=8)
             q = d.weighted([(3, "static "), (2, "const "), (2, "static const "), (1, "")])
-            k = d.weighted([(5, "int"), (2, "str"), (2, "array")])
-            if k == "int":
+            k = d.weighted([(5, "int"), (2, "str"), (2, "array"), (1, "sized-array"), (1, "fptr")])
+            if k == "sized-array":
+                ty = q + d.choice(["int", "char", "long"])
+                size = d.choice([
+                    [Lx("sizeof", "kw"), Lx("(", "par"), Lx("int", "kw"), Lx(")", "par")],
+                    [Lx("(", "par"), Lx(str(d.int(1, 64)), "num", ("const:dec",)), Lx(")", "par")],
+                    [Lx(str(d.int(1, 9)), "num", ("const:dec",)), SP(), Lx("*", "op", ("binop", "binop:*")), SP(), Lx("(", "par"), Lx("1", "num", ("const:dec",)), SP(),
+                     Lx("+", "op", ("binop", "binop:+")), SP(), Lx("1", "num", ("const:dec",)), Lx(")", "par")],
+                    [Lx(str(d.int(2, 512)), "num", ("const:dec",))],
+                ])
+                dec = [Lx(name, "id", ("decl-name", "global-name")), Lx("[", "br")] + size + [Lx("]", "br")]
+                self.tag("global:sized-array")
+            elif k == "fptr":
+                ty = q + d.choice(["int", "void", "char"])
+                pt = self.ptypes()
+                dec = [Lx("(", "par"), Lx("*", "op", ("ptr-decl",)), Lx(name, "id", ("decl-name", "global-name")), Lx(")", "par"), Lx("(", "par")] + pt + [Lx(")", "par")]
+                if d.bool(0.6) or "const" in q or "global-fptr-no-init" in self.avoid:
+                    dec += [SP(), Lx("=", "op", ("asgop", "init")), SP(), Lx("NULL", "kw")]
+                    if "global-fptr-no-init" in self.avoid:
+                        self.tag("excluded:global-fptr-no-init")
+                self.tag("global:fptr")
+            elif k == "int":
                 ty = q + d.choice(["int", "char", "long", "size_t", "unsigned int"])
                 dec = [Lx(name, "id", ("decl-name", "global-name"))]
                 if d.bool(0.7) or "const" in q:
